@@ -1,7 +1,7 @@
 """Receive-side rules: P3a-g P4 P5a-c O1(load) O2(commit) O3 W3(recv part) W8  (DESIGN.md 4)."""
 import re
 from core import CheckError, short, short_fn
-from engine import has_release, has_acquire, pairing
+from engine import has_release, has_acquire, pairing, is_const
 from rules_send import (FLAVOURS, WRITE_OPS, CAS_OPS, PAYLOAD_READ, PAYLOAD_ANY, index_sources,
                         fns_mentioning, constructs, site_key)
 
@@ -18,15 +18,22 @@ def recv_roots(ctx):
 
 
 def run(ctx):
+    ctx.step(_run, ctx)
+
+
+def _protocol_root(ctx, r, fl, view):
+    g = ctx.graph(r, fl)
+    _protocol(ctx, g, g.x, r, fl, view=view)
+
+
+def _run(ctx):
     shared, view = recv_roots(ctx)
     for fl in FLAVOURS:
         for r in shared:
-            g = ctx.graph(r, fl)
-            _protocol(ctx, g, g.x, r, fl, view=False)
+            ctx.step(_protocol_root, ctx, r, fl, False)
         for r in view:
-            g = ctx.graph(r, fl)
-            _protocol(ctx, g, g.x, r, fl, view=True)
-    _p5(ctx)
+            ctx.step(_protocol_root, ctx, r, fl, True)
+    ctx.step(_p5, ctx)
 
 
 def flavour_pins(ctx, fl):
@@ -79,38 +86,20 @@ def _protocol(ctx, g, x, root, fl, view):
     rsub = short_fn(root)
     # tag tests: (load(wraps) & MASK) ==/!= position
     tests = []   # (switch, match_edges, mismatch_edges, load_nid)
-    for sid in x.switches():
-        e = g.strip(g.switch_expr(sid))
-        if e[0] != 'bin' or e[1] not in ('Eq', 'Ne'):
-            continue
-        for (p, q) in ((e[2], e[3]), (e[3], e[2])):
+    for t_ in x.tests(('Eq',)):
+        for (p, q) in ((t_.a, t_.b), (t_.b, t_.a)):
             lp = [a for a in x.loads_in(p) if a.on('QueueEntry.wraps')]
             lq = x.loads_in(q)
             if lp and lq and all(a.nid in POSOBS for a in lq) and not any(a.on('QueueEntry.wraps') for a in lq):
-                m = x.switch_edges(sid, 'nonzero' if e[1] == 'Eq' else 'zero')
-                mm = x.switch_edges(sid, 'zero' if e[1] == 'Eq' else 'nonzero')
-                tests.append((sid, set(m), set(mm), lp[0].nid))
+                tests.append((t_.sid, set(t_.true), set(t_.false), lp[0].nid))
                 break
     match_edges = set()
     for t in tests:
         match_edges |= t[1]
-    w0_edges = set()
-    for sid in x.switches():
-        e = g.strip(g.switch_expr(sid))
-        if e[0] == 'bin' and e[1] in ('Eq', 'Ne'):
-            for (p, q) in ((e[2], e[3]), (e[3], e[2])):
-                p, q = g.strip(p), g.strip(q)
-                if p[0] == 'call' and p[1] in x.atoms and x.atoms[p[1]].on('MultiQueue.writers') and q[0] == 'c' and str(q[1]) == '0':
-                    w0_edges.update(x.switch_edges(sid, 'nonzero' if e[1] == 'Eq' else 'zero'))
-    single_edges = set()
-    for sid in x.switches():
-        e = g.strip(g.switch_expr(sid))
-        if e[0] == 'bin' and e[1] in ('Eq', 'Ne'):
-            for (p, q) in ((e[2], e[3]), (e[3], e[2])):
-                p, q = g.strip(p), g.strip(q)
-                if p[0] == 'call' and p[1] in x.atoms and x.atoms[p[1]].on('ReaderMeta.num_consumers') and x.atoms[p[1]].op == 'load' \
-                        and q[0] == 'c' and str(q[1]) == '1':
-                    single_edges.update(x.switch_edges(sid, 'nonzero' if e[1] == 'Eq' else 'zero'))
+    def _load_of(e_, *fields):
+        return e_[0] == 'call' and x.rep(e_[1]) in x.atoms and x.atoms[x.rep(e_[1])].on(*fields) and x.atoms[x.rep(e_[1])].op == 'load'
+    w0_edges, _nz, _h = x.zero_tests(lambda e_: _load_of(e_, 'MultiQueue.writers'))
+    single_edges, _f, _h = x.eq_tests(lambda a_, b_: _load_of(a_, 'ReaderMeta.num_consumers') and is_const(b_, 1))
     incs = [a for a in x.atoms_on('RefCnt.refcnt') if a.op == 'fetch_add']
     decs = [a for a in x.atoms_on('RefCnt.refcnt') if a.op == 'fetch_sub']
     other_ref = [a for a in x.atoms_on('RefCnt.refcnt') if a.op in WRITE_OPS and a.op not in ('fetch_add', 'fetch_sub')]
@@ -175,17 +164,14 @@ def _protocol(ctx, g, x, root, fl, view):
                 # re-check after pin: every path inc -> R passes an "equal" edge of a fresh position re-load
                 recheck_eq = set()
                 recheck_ne = set()
-                for sid in x.switches():
-                    e = g.strip(g.switch_expr(sid))
-                    if e[0] == 'bin' and e[1] in ('Eq', 'Ne'):
-                        for (p, q) in ((e[2], e[3]), (e[3], e[2])):
-                            p_, q_ = g.strip(p), g.strip(q)
-                            if p_[0] == 'call' and p_[1] in POSOBS and x.atoms[p_[1]].op == 'load' and p_[1] not in IDX \
-                                    and any(x.reaches(i, p_[1]) for i in inc_n):
-                                lq = x.loads_in(q_)
-                                if lq and {s.nid for s in lq} <= IDX:
-                                    recheck_eq.update(x.switch_edges(sid, 'nonzero' if e[1] == 'Eq' else 'zero'))
-                                    recheck_ne.update(x.switch_edges(sid, 'zero' if e[1] == 'Eq' else 'nonzero'))
+                for t_ in x.tests(('Eq',)):
+                    for (p_, q_) in ((t_.a, t_.b), (t_.b, t_.a)):
+                        if p_[0] == 'call' and p_[1] in POSOBS and x.atoms[p_[1]].op == 'load' and p_[1] not in IDX \
+                                and any(x.reaches(i, p_[1]) for i in inc_n):
+                            lq = x.loads_in(q_)
+                            if lq and {s.nid for s in lq} <= IDX:
+                                recheck_eq.update(t_.true)
+                                recheck_ne.update(t_.false)
                 okr = bool(recheck_eq) and all(R not in x.reach_from(i, blocked=recheck_eq | dec_n | (inc_n - {i})) for i in inc_n)
                 ctx.add('P3b', 'T-DOM', fn, okr, 'after pinning, the position is re-checked before the payload is read' if okr else
                         'payload read reachable from the pin without re-checking the stream position', flavour=fl, where=where, sub=sub + '|recheck')
@@ -476,14 +462,8 @@ def _p5(ctx):
             continue
         g = ctx.graph(name)
         x = g.x
-        one = set()
-        for sid in x.switches():
-            e = g.strip(g.switch_expr(sid))
-            if e[0] == 'bin' and e[1] in ('Eq', 'Ne'):
-                for (p, q) in ((e[2], e[3]), (e[3], e[2])):
-                    p, q = g.strip(p), g.strip(q)
-                    if p[0] == 'call' and p[1] in x.atoms and x.atoms[p[1]].on('ReaderMeta.num_consumers') and q[0] == 'c' and str(q[1]) == '1':
-                        one.update(x.switch_edges(sid, 'nonzero' if e[1] == 'Eq' else 'zero'))
+        one, _f, _h = x.eq_tests(lambda a_, b_: a_[0] == 'call' and x.rep(a_[1]) in x.atoms and
+                                 x.atoms[x.rep(a_[1])].on('ReaderMeta.num_consumers') and is_const(b_, 1))
         for (nid, si, rv) in x.aggs(r'ReaderState::Single$'):
             if g.nodes[nid].inst != g.root_inst:
                 continue
